@@ -6,7 +6,7 @@ import (
 )
 
 func init() {
-	register("C03", func(c *Ctx) { genParse(c); genC03(c) })
+	register("C03", func(c *Ctx) { genParse(c); genC03(c); genC03Core(c) })
 	replayers["c03.journal"] = func(c *Ctx, m map[string]any) map[string]any {
 		text := unhx(m["text"].(string))
 		return c03Case(text, m["truth"])
